@@ -460,6 +460,23 @@ pub fn run(ctx: &Ctx) -> (Spec, Report) {
         }
         jobs.push(Job { tree, lang, multi: true, variants, label: "fresh-processes-ambiguous-names".into(), dirs: vec![] });
     }
+    // (a3) the same definition written in two files (platform modules that repeat a shared type): whatever the output is
+    // for such input, it is the same for every delivery order of the files
+    for &lang in &[LangId::Ts, LangId::Kotlin, LangId::Python] {
+        let files = vec![
+            SrcFile { path: "dup/src/ios.rs".into(), source: "#[typeshare]\npub struct Qonlyios { pub a: u8 }\n#[typeshare]\npub struct Qrepeated { pub r: u8 }\n#[typeshare]\npub enum Qrepeatedkind { A, B }\n".into() },
+            SrcFile { path: "dup/src/android.rs".into(), source: "#[typeshare]\npub struct Qrepeated { pub r: u8 }\n#[typeshare]\npub enum Qrepeatedkind { A, B }\n#[typeshare]\npub struct Qonlyandroid { pub b: u8 }\n".into() },
+            SrcFile { path: "dup/src/lib.rs".into(), source: "#[typeshare]\npub struct Qcommon { pub c: u8 }\n#[typeshare]\npub type Qalias = Vec<u8>;\n".into() },
+            SrcFile { path: "dup/src/web.rs".into(), source: "#[typeshare]\npub type Qalias = Vec<u8>;\n#[typeshare]\npub struct Qonlyweb { pub w: u8 }\n".into() },
+        ];
+        let tree = Tree { files, n_source_files: 4, has_consts: false };
+        let mut variants: Vec<(String, Vec<(String, String)>)> = vec![];
+        for p in perms(4) {
+            let spec = format!("perm:{}", p.iter().map(|x| x.to_string()).collect::<Vec<_>>().join(","));
+            variants.push((spec.clone(), vec![("TYPESHARE_VERIF_ORDER".to_string(), spec)]));
+        }
+        jobs.push(Job { tree, lang, multi: false, variants, label: "all-permutations-repeated-definitions".into(), dirs: vec![] });
+    }
     // (a2) a crate that shares nothing but constants, spread over three files, next to an ordinary crate: every delivery
     // order of the five files (the constants' order in the output is the sorted one, not the arrival order)
     for &lang in &[LangId::Ts, LangId::Go, LangId::Python] {
@@ -665,7 +682,7 @@ pub fn run(ctx: &Ctx) -> (Spec, Report) {
         rule: "real hooked binary on generated trees (structs, enums, aliases, consts, a quarter of them annotated as #[typeshare::typeshare], over k files in several directories/crates (among them directories called target, build, node_modules, vendor, out, tests, debug, tmp), cross-file references): every permutation of arrival order for k <= 5 (quick) / 6 (thorough) via TYPESHARE_VERIF_ORDER, seeded permutations for k = 8/12/24, thread counts 1..16 x injected per-path delays (distinct delivered orders counted from the hook log), overlapping input directories (each file reachable through 2-4 of them) under 8 thread counts with and without delays, repeated processes for fresh hash seeds incl. a name defined in two other crates behind a re-export, and 5 re-splits of the same items; single- and multi-file mode, 6 languages; oracle = byte equality with the first run; thorough adds ThreadSanitizer and Miri (many-seeds) runs of the CLI; distinct = (workload, language, mode, more-than-one-order-observed)".into(),
         assumptions: vec![
             "the collector hook delivers exactly the permutation requested (its log is read back)".into(),
-            "same-named items in one single-file run are outside the domain (the output would define a name twice)".into(),
+            "same-named items in one single-file run are outside the domain of the re-split oracle (the output defines the name twice); one fixed tree with repeated definitions is still run under every delivery order, because whatever is printed for it must not depend on that order".into(),
         ],
         exhaustive: Some(false),
     };
